@@ -4,6 +4,7 @@ import (
 	"context"
 	"fmt"
 	"log/slog"
+	"sort"
 	"strings"
 	"time"
 	"unsafe"
@@ -363,6 +364,7 @@ type c5op struct {
 	msg   string
 	// concurrent member: harness event numbers and possible valuations
 	inv, ret int64
+	sib      int // 1/2: logged through hook sibling A/B
 }
 
 const (
@@ -430,6 +432,24 @@ func runC05(c *Ctx) {
 	if optIncr && (len(errOut.Data) > 0) != optIncrWidens {
 		c.Fail("C05: the IncreaseLevel option accepted a widening enabler or rejected a narrowing one", "widening=%v, error output %q; tree %s", optIncrWidens, errOut.Data, w.describe(root))
 		return
+	}
+	// hook siblings: lg gets n further hooks one WithOptions at a time; two
+	// siblings then add one hook each. Every hook of the chain fires for
+	// entries through either sibling, a sibling's own hook only for its own.
+	sib := g.Chance(3)
+	sibHooks := map[string]map[string]int{} // hook name -> message -> calls
+	var sibs []*zap.Logger
+	if sib {
+		mk := func(name string) zap.Option {
+			sibHooks[name] = map[string]int{}
+			return zap.Hooks(func(e zapcore.Entry) error { sibHooks[name][e.Message]++; return nil })
+		}
+		chain := g.Draw(7)
+		for i := 0; i < chain; i++ {
+			lg = lg.WithOptions(mk(fmt.Sprintf("chain%d", i)))
+		}
+		sibs = []*zap.Logger{lg.WithOptions(mk("sibA")), lg.WithOptions(mk("sibB"))}
+		c.Describe("hook siblings over a chain of %d hooks", chain)
 	}
 	core = lg.Core()
 	sug := lg.Sugar()
@@ -499,7 +519,12 @@ func runC05(c *Ctx) {
 		field := zap.Object("o", c5marsh{w, op.msg})
 		switch op.front {
 		case c5feLog:
-			lg.Log(l, op.msg, field)
+			if sib {
+				op.sib = 1 + len(op.msg)%2
+				sibs[op.sib-1].Log(l, op.msg, field)
+			} else {
+				lg.Log(l, op.msg, field)
+			}
 		case c5feCheck:
 			if ce := lg.Check(l, op.msg); ce != nil {
 				ce.Write(field)
@@ -584,6 +609,7 @@ func runC05(c *Ctx) {
 
 	// judge one log op against the set of valuations possibly in force
 	delivered, suppressed := 0, 0
+	nTasksIsOne := nTasks == 1
 	judge := func(op *c5op, l zapcore.Level, vals [][]zapcore.Level) bool {
 		got := received(op.msg)
 		must := map[int]bool{}
@@ -650,6 +676,25 @@ func runC05(c *Ctx) {
 			case n == 0 && hookMust[h.id]:
 				c.Fail("C05: a hook did not fire for an entry its wrapped core accepted", "%s level %d: hook node %d; tree %s", op.msg, l, h.id, w.describe(root))
 				return false
+			}
+		}
+		if sib && nTasksIsOne && op.sib != 0 {
+			accepted := len(must) > 0
+			names := make([]string, 0, len(sibHooks))
+			for name := range sibHooks {
+				names = append(names, name)
+			}
+			sort.Strings(names)
+			for _, name := range names {
+				n := sibHooks[name][op.msg]
+				want := 0
+				if accepted && (strings.HasPrefix(name, "chain") || (name == "sibA" && op.sib == 1) || (name == "sibB" && op.sib == 2)) {
+					want = 1
+				}
+				if n != want {
+					c.Fail("C05: hooks of loggers derived from one hooked logger are not kept apart", "%s through sibling %d (accepted=%v): hook %s fired %d times, expected %d", op.msg, op.sib, accepted, name, n, want)
+					return false
+				}
 			}
 		}
 		if len(may) == 0 {
